@@ -22,9 +22,9 @@ import (
 // never modifies inputs; Verify modifies nothing.
 
 type c02Case struct {
-	Kind string  `json:"kind"` // "p2", "p1", "create2", "create1", "disk"
-	P2   *p2Case `json:"p2,omitempty"`
-	P1   *p1Case `json:"p1,omitempty"`
+	Kind string   `json:"kind"` // "p2", "p1", "create2", "create1", "disk"
+	P2   *p2Case  `json:"p2,omitempty"`
+	P1   *p1Case  `json:"p1,omitempty"`
 	Ref  *c10Case `json:"ref,omitempty"` // kind "p1ref": a PAR1 set written by the reference writer (entries not saved in the parity set among the saved ones, a comment), judged with the same write oracle
 	// disk: the exported API on a real directory full of decoy files
 	Fmt   string `json:"fmt,omitempty"`
